@@ -357,6 +357,51 @@ struct SessionsModel : Monitor {
 	}
 };
 
+// ================================================================== C08 (server half) for model clients
+// The model client builds its data names with its own encoder; after the real server processed a chunk its reassembly buffer
+// must hold exactly the bytes sent so far - whatever codec the slot's previous owner had negotiated.
+struct ModelExtraction : Monitor {
+	World *w;
+	struct Chk { bool armed = false; int uid = 0, seq = 0, frag = 0; Bytes want; std::string who; Addr src; } c;
+	std::set<std::string> seen;
+	ModelExtraction(World *w) : w(w) {}
+	void on_recv(Task &t, const Dgram &d) override
+	{
+		if (&t != w->srv || !w->models || is_rawf(d.data)) return;
+		if (w->cfg.getb("no_check_ip")) return;      // with -c anybody may change a session's codec before its options are locked
+		DnsMsg m; UpQuery u;
+		if (!dns_parse_strict(d.data, m).empty() || m.qr || m.qd.empty() || !decode_upquery(m.qd[0].name.dotted(), w->domain, u) || u.cmd != 'd') return;
+		for (auto &p : w->models->clients) {
+			ModelClient *mc = p.second.get();
+			if (!mc->logged_in || mc->userid != u.userid || !mc->out_active || !mc->knows_password || mc->used_raw) continue;
+			Sock *so = (mc->use_v6 && mc->sock6) ? mc->sock6 : mc->sock;
+			if (!so || !(so->local.port == d.src.port) || d.src_host != mc->host) continue;
+			if ((mc->out_seq & 7) != u.up_seq || (mc->out_frag & 15) != u.up_frag) continue;
+			size_t end = mc->out_off + mc->out_sent;
+			if (end >= mc->out_cur.size() || u.last) continue;                      // a completed packet is handed on at once
+			std::string key = mc->name + "/" + std::to_string(mc->sent_ok.size()) + "/" + std::to_string(mc->userid) + "/" + std::to_string(mc->out_frag);
+			if (!seen.insert(key).second) continue;
+			c.armed = true; c.uid = u.userid; c.seq = u.up_seq; c.frag = u.up_frag; c.who = mc->name; c.src = d.src;
+			c.want.assign(mc->out_cur.begin(), mc->out_cur.begin() + end);
+		}
+	}
+	void on_block(Task &t) override
+	{
+		if (&t != w->srv || !c.armed) return;
+		c.armed = false;
+		UserView v;
+		if (!peek_user(c.uid, v) || v.in.seqno != c.seq || v.in.fragment != c.frag) return;
+		if (!v.authenticated || v.host.fam != c.src.fam || !v.host.same_ip(c.src)) return;       // the slot belongs to somebody else by now: the request was refused
+		Bytes got = peek_inpacket(c.uid);
+		w->probes["c08.model_prefix_checked"]++;
+		if (v.encoder != "Base32") w->probes["c08.model_prefix_checked_non32"]++;
+		if (got != c.want) {
+			char b[260]; snprintf(b, sizeof b, "after chunk %d/%d of model client %s (session %d, server codec %s) the reassembly buffer holds %zu bytes, the chunks sent so far carry %zu%s", c.seq, c.frag, c.who.c_str(), c.uid, v.encoder.c_str(), got.size(), c.want.size(), got.size() == c.want.size() ? " (different bytes)" : "");
+			w->S.violate("C08", "server.extraction", b);
+		}
+	}
+};
+
 // ================================================================== adversary ops
 struct Adversary {
 	World *w; SessionsModel *sm;
@@ -402,7 +447,7 @@ J gen_sessions(uint64_t seed, const J &ov)
 	if (fpool && !ov.has("tun_bits")) bits = (int)(r.chance(0.5) ? r.range(27, 30) : r.range(8, 30));
 	cfg.set("tun_bits", bits);
 	// server host position inside the subnet
-	uint32_t base = ((uint32_t)10 << 24) | ((uint32_t)r.range(0, 255) << 16) | ((uint32_t)r.range(0, 255) << 8);
+	uint32_t base = ((uint32_t)10 << 24) | ((uint32_t)r.range(0, 255) << 16) | ((uint32_t)r.range(0, 255) << 8) | (uint32_t)r.range(0, 255);   // any subnet of 10/8, also ones that do not start at .0
 	uint32_t hostmask = bits >= 32 ? 0 : (0xffffffffu >> bits);
 	uint32_t hostpart = (uint32_t)r.range(1, std::max<int64_t>(1, std::min<int64_t>(hostmask - 1, 20)));
 	if (r.chance(0.2) && hostmask > 2) hostpart = hostmask - 1;
@@ -455,7 +500,29 @@ J gen_sessions(uint64_t seed, const J &ov)
 		m.set("lazy", r.chance(0.3));
 		if (!ffrag && r.chance(0.4)) m.set("auto_until_s", 5 + r.uniform() * (T - 70));   // goes silent -> expires after 60 s
 		m.set("lat_up_us", (long long)r.pick_latency()); m.set("lat_dn_us", (long long)r.pick_latency());
+		if (r.chance(0.5)) { static const int ue[] = {6, 26, 7}; m.set("upenc", ue[r.range(0, 2)]); }
 		models.push(m);
+	}
+	// successors: a fresh legitimate client (another address) that shows up 61-75 s after a session fell silent and so inherits
+	// its slot; whatever the previous owner negotiated (codecs, fragment size, cached answers) must not leak into the new session
+	int nsucc = 0;
+	{
+		size_t nmod = models.a.size();
+		for (size_t i = 0; i < nmod && nsucc < 4; i++) {
+			if (!models.a[i].has("auto_until_s") || !r.chance(0.6)) continue;
+			double stop = models.a[i].getd("auto_until_s");
+			if (stop + 80 > T) continue;
+			J m = J::obj();
+			m.set("name", "s" + std::to_string(nsucc)); m.set("ip", "10.9.5." + std::to_string(1 + nsucc));
+			m.set("auto", true); m.set("start_us", (long long)((stop + 61 + r.uniform() * 14) * 1e6));
+			m.set("ping_period", 0.3 + r.uniform() * 2);
+			m.set("qtype", models.a[i].gets("qtype"));
+			if (r.chance(0.3)) { static const int ue[] = {6, 26, 7}; m.set("upenc", ue[r.range(0, 2)]); }
+			if (r.chance(0.3)) m.set("fragsize", (int)r.range(20, 200));
+			m.set("lat_up_us", (long long)r.pick_latency()); m.set("lat_dn_us", (long long)r.pick_latency());
+			models.push(m);
+			nsucc++;
+		}
 	}
 	// adversaries: model clients without the password
 	int na = (int)r.range(1, 2);
@@ -504,6 +571,21 @@ J gen_sessions(uint64_t seed, const J &ov)
 			op.set("act", act);
 			if (act == "rawlogin") op.set("mode", "good");
 			if (act == "pkt" || act == "rawdata") { op.set("ser", (long long)++ser); op.set("len", (int)r.range(40, 300)); op.set("body", "rnd"); op.set("dst", "srv"); }
+			ops.push(op);
+		}
+	}
+	// traffic of the successors: upstream packets and downstream packets for whatever address they get
+	for (int i = 0; i < nsucc; i++) {
+		double st = 0;
+		for (auto &m : models.a) if (m.gets("name") == "s" + std::to_string(i)) st = m.geti("start_us") / 1e6;
+		int k = (int)r.range(2, 12);
+		for (int j = 0; j < k; j++) {
+			double tt = st + 2 + r.uniform() * std::max(1.0, T - st - 4);
+			if (tt >= T - 1) continue;
+			J op = J::obj(); op.set("ref", "abs"); op.set("t", (long long)(tt * 1e6));
+			if (r.chance(0.6)) { op.set("op", "mc"); op.set("who", "s" + std::to_string(i)); op.set("act", "pkt"); op.set("dst", "srv"); }
+			else { op.set("op", "tun"); op.set("at", "srv"); op.set("src", "ext"); op.set("dst", "s" + std::to_string(i)); }
+			op.set("ser", (long long)++ser); op.set("len", (int)r.range(40, 500)); op.set("body", "rnd");
 			ops.push(op);
 		}
 	}
@@ -591,6 +673,7 @@ World *build_sessions(const J &plan)
 	for (auto &m : w->cfg["models"].a) ms->add(m.gets("name"), m);
 	SessionsModel *sm = new SessionsModel(w);
 	w->add(sm);
+	w->add(new ModelExtraction(w));
 	w->add(mk_c14_ledger(w, false));
 	w->add(mk_c15_fragsize(w));
 	w->add(mk_probes(w));
